@@ -5,6 +5,7 @@ PROPS = {
     'C01': dict(title='canonical representation', level='proof', engines=[]),
     'C02': dict(title='basic arithmetic correctly rounded', level='proof', engines=[]),
     'C10': dict(title='no more bits than the working precision', level='proof', engines=[]),
+    'C05': dict(title='comparisons exact, equal numbers hash equally', level='proof', engines=[]),
 }
 
 
